@@ -355,18 +355,15 @@ class _InternalBaseTracer(_InternalBaseTracerSuper, metaclass=MetaTracerStateMac
         return False
 
     def _handle_skipall_emit_return(self, event, old_ret):
-        if event in (TraceEvent.call, TraceEvent.exception):
-            return (SkipAll, self.sys_tracer)
-        else:
-            return (SkipAll, old_ret)
+        return (SkipAll, old_ret)
 
     def _handle_normal_emit_return(self, event, old_ret, new_ret):
+        # one rule for every event: a handler that returns nothing (or Skip, or raises) keeps the value
+        # left so far.  (For a 'call' event that value starts out as the tracer's own trace function, see
+        # _sys_tracer: it used to be put back after every such handler, discarding what earlier handlers left.)
         should_break = new_ret is Skip
         if new_ret is None or new_ret is Skip:
-            if event in (TraceEvent.call, TraceEvent.exception):
-                new_ret = self.sys_tracer
-            else:
-                new_ret = old_ret
+            new_ret = old_ret
         elif new_ret is Null:
             new_ret = None
         return new_ret, should_break
@@ -1095,17 +1092,12 @@ class _InternalBaseTracer(_InternalBaseTracerSuper, metaclass=MetaTracerStateMac
                 TraceEvent.opcode in self.events_with_registered_handlers
             )
             try:
-                ret = self._emit_event(evt, None, frame, ret=arg)
+                # the value of a 'call' event is the frame's local trace function: by default the
+                # tracer's own (the frame is traced); Null leaves it untraced, a callable replaces it
+                ret = self._emit_event(evt, None, frame, ret=self.sys_tracer)
             finally:
                 frame.f_trace_lines = orig_trace_lines  # type: ignore
                 frame.f_trace_opcodes = orig_trace_opcodes  # type: ignore
-            if (
-                ret is None
-                and TraceEvent.call not in self.events_with_registered_handlers
-            ):
-                # no 'call' handler could have asked to skip this frame: keep tracing it,
-                # otherwise its line / return / exception events are never delivered
-                ret = self.sys_tracer
             return ret
         else:
             return self._emit_event(evt, None, frame, ret=arg)
